@@ -5,18 +5,19 @@
      run   <env> <hdr> <wire> M only on a raw event list (hdr: - or a row number)
                               -> <M range>#<M ref range>
      wbenc <wb>               encode workbook.xml.rels and workbook.xml
-                              -> <rels wire>#<workbook wire>#<known>
+                              -> <rels wire>#<workbook wire>#<known>#<legal_workbook>
      wb    <env> <parts>      M on a package (zip entries in order, name@wire joined by '|')
                               -> openerr | namehex=<range>&…
      norm  <hex>              normalize_target + sheet_type_of -> <hex>:<type or ->
      eic   <hex> <hex>        eq_ignore_ascii_case -> 0/1
      usize <hex>              parse_usize -> n or -
+     groc  <hex>              get_row_and_optional_column (hardened scanner) -> ok:r,c | ok:r,- | err
    Event wire format (shared with tools/textgen.py): tokens separated by ' ':
      S<hexname>[,<hexkey>=<hexval>]* | E<hexname> | T<hex> | C<hex> | O
    env   := <strings>|<formats>|<is1904>     strings: x<hex> joined by ','; formats: letters o d t
    sheet := pfx|dim|pre|pre2|junk0|post|rows   ('-' = empty; dim: - | r.c | r.c.r.c)
    row   := idx:explicit:extra:junk0:junk:cells        rows joined by ';', cells by '/'
-   cell  := col~explicit~lower~style~value~sform~tn~formula~extra~inner~junk
+   cell  := col~explicit~lower~style~value~sform~tn~alt~formula~extra~inner~junk
             value: N<hex> S<hex> B0 B1 X<code> I<hex> K;  sform: h<idx> i f;  formula: - or F<hex>
    Canonical range: R[-] or R[sr,sc,er,ec|n=<cells>|r:c:V,…] (non-empty cells, row-major, absolute
    positions); V as in harness/src/util.rs data_str, plus H<hex> for DataRef::SharedString.
@@ -142,10 +143,10 @@ let parse_sform s : strform =
 
 let parse_cell s : ecell =
   match String.split_on_char '~' s with
-  | [col; ex; lo; st; v; sf; tn; f; extra; inner; junk] ->
+  | [col; ex; lo; st; v; sf; tn; alt; f; extra; inner; junk] ->
     { ec_col = n_of_string col; ec_explicit = (ex = "1"); ec_lower = (lo = "1");
       ec_style = (if st = "-" then None else Some (n_of_string st));
-      ec_val = parse_value v; ec_sform = parse_sform sf; ec_tn = (tn = "1");
+      ec_val = parse_value v; ec_sform = parse_sform sf; ec_tn = (tn = "1"); ec_alt = (alt = "1");
       ec_formula = (if f = "-" then None else Some (s_of_hex (tail1 f)));
       ec_extra = parse_attrs extra; ec_inner = unwire inner; ec_junk = unwire junk }
   | _ -> failwith ("bad cell " ^ s)
@@ -221,7 +222,7 @@ let cmd_enc envs sheets =
   let spec = used_cells_spec parse_f64 en (logical sh) in
   let specs = String.concat "," (List.map (fun ((r, c), v) ->
       Printf.sprintf "%s:%s:%s" (string_of_n r) (string_of_n c) (show_data v)) spec) in
-  let known = match known_C01 sh with None -> "-" | Some k -> "K" ^ string_of_n k in
+  let known = "-" in   (* no sheet-level class is left *)
   let legal = if legal_sheet parse_f64 en sh then "1" else "0" in
   String.concat "#" [wire evs; show_data_range m; show_ref_range mr; specs; known; legal]
 
@@ -237,7 +238,7 @@ let parse_sheetref s : esheetref =
   | [name; rid; part; sp; extra] ->
     { sr_name = s_of_hex name; sr_rid = s_of_hex rid; sr_part = s_of_hex part;
       sr_spelling = (match sp with "1" -> SpAbsolute | "2" -> SpXl | _ -> SpRelative);
-      sr_extra = parse_attrs extra }
+      sr_extra = parse_attrs extra; sr_content = SOther [] }
   | _ -> failwith "bad sheetref"
 let hex_or_empty s = if s = "-" then [] else s_of_hex s
 let parse_wb s : eworkbook =
@@ -251,7 +252,8 @@ let parse_wb s : eworkbook =
 let cmd_wbenc s =
   let wb = parse_wb s in
   let known = match known_C01_wb wb with None -> "-" | Some k -> "K" ^ string_of_n k in
-  String.concat "#" [wire (rels_events wb); wire (workbook_events wb); known]
+  String.concat "#" [wire (rels_events wb); wire (workbook_events wb); known;
+                     (if legal_workbook wb then "1" else "0")]
 
 let parse_parts s : (str * event list) list =
   List.map (fun p ->
@@ -277,6 +279,11 @@ let run (args : string list) : string =
     let p = normalize_target (s_of_hex h) in
     hex_of_s p ^ ":" ^ (match sheet_type_of p with Some t -> string_of_n t | None -> "-")
   | ["eic"; a; b] -> if eq_ignore_ascii_case (s_of_hex a) (s_of_hex b) then "1" else "0"
+  | ["groc"; h] ->
+    (match get_row_and_optional_column_x (bytes_of_hex h) with
+     | Ok (r, Some c) -> Printf.sprintf "ok:%s,%s" (string_of_n r) (string_of_n c)
+     | Ok (r, None) -> Printf.sprintf "ok:%s,-" (string_of_n r)
+     | Err _ -> "err" | Panic -> "panic" | OutOfFuel -> "fuel")
   | ["usize"; h] -> (match parse_usize (s_of_hex h) with Some n -> string_of_n n | None -> "-")
   | _ -> "bad-args"
 
